@@ -14,9 +14,9 @@ def liftErr {α : Type} : Except DbErr α → Except CErr α
   | .ok a => .ok a
   | .error _ => .error .store
 
-/-- the world of `envOf` in which `verify` and `trust` are the translated database methods -/
+/-- the world of `tofuEnvOf` in which `verify` and `trust` are the translated database methods -/
 def envSql (k : Key) (p : Presented) (payload : List Nat) (response : Nat) : TofuEnv World Fp Nat :=
-  { envOf k p payload response with
+  { tofuEnvOf k p payload response with
     verify := fun w h pt c =>
       let out := tofuVerify pinsEnv id (Db.opened w.1) h pt c
       ((out.1.committed, w.2 ++ [.verify (h, pt) (match out.2 with | .ok v => v.1 | .error _ => false)]), liftErr out.2)
@@ -31,18 +31,18 @@ theorem getSingleTail_sql (s : Pins) (k : Key) (p : Presented) (pl : List Nat) (
   obtain ⟨h, pt⟩ := k
   unfold getSingleTail connect
   cases p with
-  | unreadable => simp [envSql, envOf, outOf]
+  | unreadable => simp [envSql, tofuEnvOf, outOf]
   | cert fp =>
     have hv := tofuVerify_eq id s h pt fp
     obtain ⟨s', ht, hs'⟩ := tofuTrust_eq id s h pt fp
     simp only [Db.opened, id] at hv ht hs'
     cases hg : s.get (h, pt) with
     | none =>
-      simp [envSql, envOf, hv, ht, verdict, hg, outOf, sends, liftErr, Db.opened]
+      simp [envSql, tofuEnvOf, hv, ht, verdict, hg, outOf, sends, liftErr, Db.opened]
       intro a b
       simpa using hs' (a, b)
     | some old =>
       by_cases he : old = fp
-      · simp [envSql, envOf, hv, verdict, hg, he, outOf, sends, liftErr, Db.opened]
-      · simp [envSql, envOf, hv, verdict, hg, he, outOf, sends, liftErr, Db.opened]
+      · simp [envSql, tofuEnvOf, hv, verdict, hg, he, outOf, sends, liftErr, Db.opened]
+      · simp [envSql, tofuEnvOf, hv, verdict, hg, he, outOf, sends, liftErr, Db.opened]
 end NauyacaVerif.Translated
